@@ -1598,6 +1598,11 @@ def _run_hom_table(ctx, rid, it, table, home_rel, complex_scale=False,
                 f"{detail} changes when the same input is given by another "
                 "representative (coordinates multiplied by a non-zero, "
                 "possibly negative scalar)", instance=inst)
+        elif verdict == "proved" and not names:
+            r.ok(rid, inst, loc(f, f.node), "",
+                 "no input of this row is subject to rescaling (a definite "
+                 "matrix / sign-carrying data): nothing to prove, no "
+                 "scale-dependent construct met")
         elif verdict == "proved":
             stats["proved"] += 1
             r.ok(rid, inst, loc(f, f.node), "",
